@@ -449,13 +449,19 @@ ufun colG(c color.Color) uint32
 ufun colB(c color.Color) uint32
 ufun colA(c color.Color) uint32
 extern attr image.Image.Bounds = imgBounds
-extern attr image.Image.At = imgAt
+extern attr image.Image.At = imgAt nonnil
 extern attr image/color.Color.RGBA = colR, colG, colB, colA
 
 extern func image.Rect(x0, y0, x1, y1)
   ensures result.Min.X == min(x0, x1) && result.Max.X == max(x0, x1) && result.Min.Y == min(y0, y1) && result.Max.Y == max(y0, y1)
 extern func image.NewRGBA(r)
   ensures result != nil && imgBounds(boxed(result)) == r
+-- scaling writes the pixels of its destination (an image outside the module's model) and reads the source through
+-- At/Bounds: assumed to have no effect on the module's state
+extern func golang.org/x/image/draw.Interpolator.Scale(ip, dst, dr, src, sr, op, opts)
+-- the sixel encoder writes to its io.Writer (a bytes.Buffer, not modelled) and reads the image: assumed to have
+-- no effect on the module's state
+extern func (*github.com/mattn/go-sixel.Encoder).Encode(e, img)
 
 pred cdiv(a int, b int) int = (a % b == 0) ? a / b : a / b + 1
 pred ImgOK(img image.Image) = img != nil && imgBounds(img).Min.X == 0 && imgBounds(img).Min.Y == 0 && imgBounds(img).Max.X >= 0 && imgBounds(img).Max.Y >= 0
@@ -469,6 +475,16 @@ pred scaleOf(img image.Image, w int, h int, cpw int, cph int) float64 =
 func resizeImage(img image.Image, w int, h int, cellPixW int, cellPixH int) image.Image
   requires ImgOK(img) && imgW(img) > 0 && imgH(img) > 0 && cellPixW > 0 && cellPixH > 0 && w >= 0 && h >= 0
   assume draw.NearestNeighbor != nil -- package-level interpolator of golang.org/x/image/draw, never reassigned
+  modifies nothing
+  -- stepping stones (proved at the return, then used by the postconditions): the cell counts in product form, and
+  -- the new pixel size as the floor of the old one times the smaller scale factor
+  exit 2 lemma cells: (columns - 1) * cellPixW < wPix && wPix <= columns * cellPixW && (lines - 1) * cellPixH < hPix && hPix <= lines * cellPixH
+  exit 2 lemma scale: !(columns <= w && lines <= h) ==>
+        (let s = (sfX <= sfY) ? sfX : sfY in
+            s >= 0.0 && s < 1.0 && s * real(columns) <= real(w) && s * real(lines) <= real(h)
+         && ((sfX <= sfY) ? s * real(columns) == real(w) : s * real(lines) == real(h))
+         && newPixelWidth >= 0 && real(newPixelWidth) <= s * real(wPix) && s * real(wPix) < real(newPixelWidth) + 1.0
+         && newPixelHeight >= 0 && real(newPixelHeight) <= s * real(hPix) && s * real(hPix) < real(newPixelHeight) + 1.0)
   ensures ok: ImgOK(result)
   -- the cell size of the result never exceeds the requested box
   ensures C20_fit: cdiv(imgW(result), cellPixW) <= w && cdiv(imgH(result), cellPixH) <= h
@@ -487,4 +503,132 @@ func resizeImage(img image.Image, w int, h int, cellPixW int, cellPixH int) imag
         scaleOf(img, w, h, cellPixW, cellPixH) * real(cdiv(imgH(img), cellPixH)) - real(cdiv(imgH(result), cellPixH)) < 1.0
   -- an image that already fits is returned as it is
   ensures C20_same: fitsBox(img, w, h, cellPixW, cellPixH) ==> result == img
+  ensures fresh: !fitsBox(img, w, h, cellPixW, cellPixH) ==> typeis(result, "*image.RGBA")
+@*/
+
+/*@
+-- ---- block-rendered images: which pixels feed which cell, and how
+-- one 8-bit channel from an alpha-premultiplied 16-bit one (color.Color.RGBA), as toRGB computes it
+pred px8(p uint32, a uint32) int = (a == 0) ? p % 256 : (((p * 255) % 4294967296) / a) % 256
+pred pxA(a uint32) int = (a == 0) ? 0 : (a / 256) % 256
+-- the four 8-bit channels of a colour; opaque outside toRGB (callers reason about them as values)
+rec chanR(c color.Color) int = px8(colR(c), colA(c))
+rec chanG(c color.Color) int = px8(colG(c), colA(c))
+rec chanB(c color.Color) int = px8(colB(c), colA(c))
+rec chanA(c color.Color) int = pxA(colA(c))
+pred rgbOf(c color.Color) Color = 33554432 + chanR(c) * 65536 + chanG(c) * 256 + chanB(c)
+pred alphaOf(c color.Color) int = chanA(c)
+
+func toRGB(c color.Color) (uint8, uint8, uint8, uint8)
+  requires c != nil
+  unfold chanR, chanG, chanB, chanA
+  ensures C20_r: result0 == chanR(c)
+  ensures C20_g: result1 == chanG(c)
+  ensures C20_b: result2 == chanB(c)
+  ensures C20_a: result3 == chanA(c)
+
+-- the cell drawn for a (top, bottom) pixel pair: pixels with alpha below 50 show the default colour
+pred blockCell(g string, fg Color, bg Color) Cell = mk("Cell", mk("Character", g, 1), mk("Style", "", "", fg, bg, 0, 0, 0), false)
+rec HalfCell(top color.Color, bot color.Color) Cell =
+    (alphaOf(top) < 50 && alphaOf(bot) < 50) ? blockCell(" ", 0, 0)
+  : (alphaOf(top) < 50) ? blockCell("▄", rgbOf(bot), 0)
+  : (alphaOf(bot) < 50) ? blockCell("▀", rgbOf(top), 0)
+  : blockCell("▀", rgbOf(top), rgbOf(bot))
+
+func (hb *HalfBlockImage) Resize(w int, h int)
+  requires ImgOK(hb.img) && imgW(hb.img) > 0 && imgH(hb.img) > 0 && w >= 0 && h >= 0
+  modifies hb.width, hb.height, hb.cells
+  unfold HalfCell
+  ensures C20_fit: hb.width <= w && hb.height <= h
+  ensures C20_noupscale: hb.width <= imgW(old(hb.img)) && 2 * hb.height <= imgH(old(hb.img)) + 1
+  ensures C20_len: len(hb.cells) == hb.width * hb.height && hb.width >= 0 && hb.height >= 0
+  loop 1 invariant geom: hb.width == imgW(img) && 2 * hb.height >= imgH(img) && len(hb.cells) == hb.height * hb.width && hb.width >= 0 && hb.height >= 0
+  loop 1 invariant C20_pixels: -1 <= rangeindex && rangeindex < len(hb.cells) && (forall k in 0..rangeindex + 1:
+        hb.cells[k] == HalfCell(imgAt(img, k - (k / hb.width) * hb.width, 2 * (k / hb.width)), imgAt(img, k - (k / hb.width) * hb.width, 2 * (k / hb.width) + 1)))
+  -- every cell shows exactly the two source pixels it covers: column k mod width, rows 2*(k div width) and the next
+  exit assert C20_pixels: forall k in 0..len(hb.cells):
+        hb.cells[k] == HalfCell(imgAt(img, k - (k / hb.width) * hb.width, 2 * (k / hb.width)), imgAt(img, k - (k / hb.width) * hb.width, 2 * (k / hb.width) + 1))
+@*/
+
+/*@
+-- averageColor: channel-wise mean of c and the extra colours
+rec sumR(cs []color.Color, n int) int = (n <= 0) ? 0 : sumR(cs, n - 1) + chanR(cs[n-1])
+rec sumG(cs []color.Color, n int) int = (n <= 0) ? 0 : sumG(cs, n - 1) + chanG(cs[n-1])
+rec sumB(cs []color.Color, n int) int = (n <= 0) ? 0 : sumB(cs, n - 1) + chanB(cs[n-1])
+rec sumA(cs []color.Color, n int) int = (n <= 0) ? 0 : sumA(cs, n - 1) + chanA(cs[n-1])
+
+func averageColor(c color.Color, colors ...color.Color) (uint8, uint8, uint8, uint8)
+  requires c != nil && (forall i in 0..len(colors): colors[i] != nil)
+  requires len(colors) < 1000000
+  -- append may write the spare capacity of the caller's slice
+  modifies elems(colors)
+  unfold sumR, sumG, sumB, sumA
+  loop 1 invariant idx: -1 <= rangeindex && rangeindex < len(colors) && len(colors) == len(old(colors)) + 1
+  loop 1 invariant elems: colors[len(colors) - 1] == c && (forall i in 0..len(old(colors)): colors[i] == old(colors[i]))
+  loop 1 invariant sums: r == sumR(colors, rangeindex + 1) && g == sumG(colors, rangeindex + 1) && b == sumB(colors, rangeindex + 1) && a == sumA(colors, rangeindex + 1)
+  loop 1 invariant range: 0 <= r && r <= 255 * (rangeindex + 1) && 0 <= g && g <= 255 * (rangeindex + 1) && 0 <= b && b <= 255 * (rangeindex + 1) && 0 <= a && a <= 255 * (rangeindex + 1)
+  -- the case the block renderers use: the mean of two pixels, channel by channel
+  ensures C20_avg2: len(old(colors)) == 1 ==>
+        (result0 == (chanR(old(colors[0])) + chanR(c)) / 2 && result1 == (chanG(old(colors[0])) + chanG(c)) / 2
+      && result2 == (chanB(old(colors[0])) + chanB(c)) / 2 && result3 == (chanA(old(colors[0])) + chanA(c)) / 2)
+@*/
+
+/*@
+-- a full-block cell is a space on the mean colour of the two pixels it covers; default colour if the mean alpha is below 50
+rec FullCell(top color.Color, bot color.Color) Color =
+    ((chanA(bot) + chanA(top)) / 2 < 50) ? 0
+  : 33554432 + ((chanR(bot) + chanR(top)) / 2) * 65536 + ((chanG(bot) + chanG(top)) / 2) * 256 + (chanB(bot) + chanB(top)) / 2
+
+func (fb *FullBlockImage) Resize(w int, h int)
+  requires ImgOK(fb.img) && imgW(fb.img) > 0 && imgH(fb.img) > 0 && w >= 0 && h >= 0
+  modifies fb.width, fb.height, fb.cells
+  unfold FullCell
+  ensures C20_fit: fb.width <= w && fb.height <= h
+  ensures C20_noupscale: fb.width <= imgW(old(fb.img)) && 2 * fb.height <= imgH(old(fb.img)) + 1
+  ensures C20_len: len(fb.cells) == fb.width * fb.height && fb.width >= 0 && fb.height >= 0
+  loop 1 preserves old
+  loop 1 invariant geom: fb.width == imgW(img) && 2 * fb.height >= imgH(img) && len(fb.cells) == fb.height * fb.width && fb.width >= 0 && fb.height >= 0
+  loop 1 invariant C20_pixels: -1 <= rangeindex && rangeindex < len(fb.cells) && (forall k in 0..rangeindex + 1:
+        fb.cells[k] == FullCell(imgAt(img, k - (k / fb.width) * fb.width, 2 * (k / fb.width)), imgAt(img, k - (k / fb.width) * fb.width, 2 * (k / fb.width) + 1)))
+  exit assert C20_pixels: forall k in 0..len(fb.cells):
+        fb.cells[k] == FullCell(imgAt(img, k - (k / fb.width) * fb.width, 2 * (k / fb.width)), imgAt(img, k - (k / fb.width) * fb.width, 2 * (k / fb.width) + 1))
+@*/
+
+/*@
+-- drawing a block image touches only cells inside the target window, and puts cell k of the image at
+-- column k mod width, row k div width of the window
+func (hb *HalfBlockImage) Draw(win Window)
+  requires ok: WinOK(win)
+  requires geom: len(hb.cells) == hb.width * hb.height && hb.width >= 0 && hb.height >= 0
+  ensures C20_contain: OutsideKept(win)
+  loop 1 invariant keep: OutsideKept(win)
+
+func (fb *FullBlockImage) Draw(win Window)
+  requires ok: WinOK(win)
+  requires geom: len(fb.cells) == fb.width * fb.height && fb.width >= 0 && fb.height >= 0
+  ensures C20_contain: OutsideKept(win)
+  loop 1 invariant keep: OutsideKept(win)
+@*/
+
+/*@
+-- the two pixel protocols: the cell size recorded for the placement is that of the resized image, which fits
+-- the box; nothing is computed (and nothing divides by zero) while the terminal has not reported a pixel size
+pred CellPixKnown(vx *Vaxis) = vx.winSize.Cols > 0 && vx.winSize.Rows > 0 && vx.winSize.XPixel / vx.winSize.Cols > 0 && vx.winSize.YPixel / vx.winSize.Rows > 0
+
+func (k *KittyImage) Resize(w int, h int)
+  requires ImgOK(k.img) && imgW(k.img) > 0 && imgH(k.img) > 0 && w >= 0 && h >= 0 && k.vx != nil
+  ensures C20_fit: CellPixKnown(k.vx) ==> (k.w <= w && k.h <= h)
+
+-- (the body of Sixel.Resize runs as a goroutine; it is verified as a function of its captured variables)
+func (s *Sixel) Resize$Resize$1()
+  requires s != nil && ImgOK(s.img) && imgW(s.img) > 0 && imgH(s.img) > 0 && w >= 0 && h >= 0 && s.vx != nil && s.buf != nil
+  requires typeis(s.img, "*image.Paletted") ==> unbox(s.img, "*image.Paletted") != nil
+  ensures C20_fit: CellPixKnown(s.vx) ==> (s.w <= w && s.h <= h)
+@*/
+
+/*@
+-- placement identity: same image, same size, same position
+func samePlacement(p1 *placement, p2 *placement) bool
+  requires p1 != nil && p2 != nil
+  ensures C20_same: result <==> (p1.id == p2.id && p1.col == p2.col && p1.row == p2.row && p1.w == p2.w && p1.h == p2.h)
 @*/
